@@ -431,3 +431,88 @@ Proof.
   eapply Permutation_trans; [apply consolidate_lossless|]. apply filter_perm.
   rewrite concat_app. cbn. rewrite app_nil_r. apply Permutation_app_head. exact P.
 Qed.
+
+(* ---------- str(datetime) timestamps: string order = chronological order ---------- *)
+Definition digit (n : N) : ascii := ascii_of_N (48 + n).
+Definition pad2 (n : N) : string := String (digit (n / 10)) (String (digit (n mod 10)) "").
+
+(* the fields of a datetime in groups of two decimal digits: year = 100*yh + yl, microsecond =
+   10000*u1 + 100*u2 + u3; st_frac = None when the microsecond is 0 (str(datetime) prints no fraction) *)
+Record stamp := mkStamp { yh : N; yl : N; mo : N; dd : N; hh : N; mi : N; ss : N; st_frac : option (N * N * N) }.
+Definition frac_key (f : option (N * N * N)) : list N :=
+  match f with None => [0; 0; 0]%N | Some (a, b, c) => [a; b; c] end.
+Definition stamp_key (s : stamp) : list N := [yh s; yl s; mo s; dd s; hh s; mi s; ss s] ++ frac_key (st_frac s).
+Definition render_frac (f : option (N * N * N)) : string :=
+  match f with None => "" | Some (a, b, c) => ("." ++ pad2 a ++ pad2 b ++ pad2 c)%string end.
+Definition render (s : stamp) : string :=
+  (pad2 (yh s) ++ pad2 (yl s) ++ "-" ++ pad2 (mo s) ++ "-" ++ pad2 (dd s) ++ " " ++
+   pad2 (hh s) ++ ":" ++ pad2 (mi s) ++ ":" ++ pad2 (ss s) ++ render_frac (st_frac s))%string.
+Definition stamp_wf (s : stamp) : Prop :=
+  Forall (fun x => x < 100)%N (stamp_key s) /\ st_frac s <> Some (0, 0, 0)%N.
+(* chronological order = lexicographic order of the field groups *)
+Fixpoint lex_ltb (a b : list N) : bool :=
+  match a, b with
+  | x :: a', y :: b' => if (x <? y)%N then true else if (y <? x)%N then false else lex_ltb a' b'
+  | _, _ => false
+  end.
+
+Definition range100 : list N := map N.of_nat (seq 0 100).
+Lemma range100_In a : (a < 100)%N -> In a range100.
+Proof.
+  intros H. unfold range100. rewrite <- (N2Nat.id a). apply in_map. apply in_seq. lia.
+Qed.
+Lemma pad2_table :
+  forallb (fun a => forallb (fun b => Bool.eqb (str_ltb (pad2 a) (pad2 b)) (a <? b)%N) range100) range100 = true.
+Proof. vm_compute. reflexivity. Qed.
+Lemma pad2_lt a b : (a < 100)%N -> (b < 100)%N -> str_ltb (pad2 a) (pad2 b) = (a <? b)%N.
+Proof.
+  intros Ha Hb. pose proof pad2_table as T. rewrite forallb_forall in T.
+  specialize (T a (range100_In a Ha)). rewrite forallb_forall in T. specialize (T b (range100_In b Hb)).
+  apply eqb_prop in T. exact T.
+Qed.
+
+Lemma str_ltb_app_same_length s1 : forall s2 t1 t2, String.length s1 = String.length s2 ->
+  str_ltb (s1 ++ t1)%string (s2 ++ t2)%string =
+  if str_ltb s1 s2 then true else if str_ltb s2 s1 then false else str_ltb t1 t2.
+Proof.
+  induction s1 as [|x s1 IH]; intros [|y s2] t1 t2 H; cbn in H; try discriminate.
+  - cbn. destruct t1, t2; reflexivity.
+  - cbn. destruct (N_of_ascii x <? N_of_ascii y)%N; [reflexivity|].
+    destruct (N_of_ascii y <? N_of_ascii x)%N; [reflexivity|]. apply IH. congruence.
+Qed.
+Lemma step_pad x y t1 t2 : (x < 100)%N -> (y < 100)%N ->
+  str_ltb (pad2 x ++ t1)%string (pad2 y ++ t2)%string =
+  if (x <? y)%N then true else if (y <? x)%N then false else str_ltb t1 t2.
+Proof.
+  intros Hx Hy. rewrite str_ltb_app_same_length by reflexivity. rewrite !pad2_lt by assumption. reflexivity.
+Qed.
+Lemma step_sep c t1 t2 : str_ltb (String c t1) (String c t2) = str_ltb t1 t2.
+Proof. cbn. rewrite N.ltb_irrefl. reflexivity. Qed.
+
+Lemma frac_order fa fb :
+  Forall (fun x => x < 100)%N (frac_key fa) -> Forall (fun x => x < 100)%N (frac_key fb) ->
+  fa <> Some (0, 0, 0)%N -> fb <> Some (0, 0, 0)%N ->
+  str_ltb (render_frac fa) (render_frac fb) = lex_ltb (frac_key fa) (frac_key fb).
+Proof.
+  intros Ha Hb Fa Fb.
+  assert (E : forall u, (u <? 0)%N = false) by (intros u; apply N.ltb_ge; lia).
+  destruct fa as [[[u1 u2] u3]|], fb as [[[v1 v2] v3]|]; cbn [render_frac frac_key] in *;
+    repeat match goal with H : Forall _ (_ :: _) |- _ => inversion H; clear H; subst end.
+  - cbn [append]. rewrite step_sep. rewrite !step_pad by assumption. rewrite pad2_lt by assumption.
+    cbn [lex_ltb]. destruct (u3 <? v3)%N, (v3 <? u3)%N; reflexivity.
+  - cbn [lex_ltb]. rewrite !E. destruct u1, u2, u3; reflexivity.
+  - cbn [lex_ltb]. rewrite !E.
+    destruct v1 as [|p1]; [destruct v2 as [|p2]; [destruct v3 as [|p3]; [congruence|]|]|]; reflexivity.
+  - reflexivity.
+Qed.
+
+Theorem stamp_order a b : stamp_wf a -> stamp_wf b ->
+  str_ltb (render a) (render b) = lex_ltb (stamp_key a) (stamp_key b).
+Proof.
+  intros [Ha Fa] [Hb Fb]. destruct a as [a1 a2 a3 a4 a5 a6 a7 fa], b as [b1 b2 b3 b4 b5 b6 b7 fb].
+  unfold stamp_key, render in *. cbn [yh yl mo dd hh mi ss st_frac app] in *.
+  repeat match goal with H : Forall _ (_ :: _) |- _ => inversion H; clear H; subst end.
+  cbn [lex_ltb append].
+  repeat ((rewrite step_pad by assumption) || rewrite step_sep).
+  rewrite frac_order by assumption. reflexivity.
+Qed.
